@@ -442,6 +442,15 @@ def oracle_identities(ctx, ad, case, U, l, mean, scale, rp, site, full, rng, lin
                         dict(rp, x=list(x)))
         ok &= ctx.check(maxabs(U.dot(po)) <= tol, site, "residual-not-orthogonal",
                         "components . project_out(x) = %r" % (list(U.dot(po)),), dict(rp, x=list(x)))
+        # a projection ONTO THE MODEL: the reconstruction lies in mean + span(active components) (seeded C10-4: with a
+        # lowered active count reconstruct / project_out used every stored component; idempotence, orthogonality of
+        # the residual to the active components and the decomposition all survive that)
+        off = (r1 - mean) - U.T.dot(U.dot(r1 - mean))
+        ok &= ctx.check(maxabs(off) <= tol * (1 + maxabs(x)), site, "reconstruction-outside-model",
+                        "reconstruct(x) - mean has a part of size %.3g outside the span of the %d active components"
+                        % (maxabs(off), U.shape[0]), dict(rp, x=list(x)))
+        ok &= ctx.check(maxabs(ad.project(r1) - pr) <= tol * (1 + maxabs(x)), site, "project-of-reconstruction",
+                        "project(reconstruct(x)) differs from project(x)", dict(rp, x=list(x)))
         ok &= ctx.check(maxabs(r1 + po - x) <= tol, site, "decomposition",
                         "reconstruct(x) + project_out(x) differs from x by %.3g" % maxabs(r1 + po - x), dict(rp, x=list(x)))
         # orthogonal: the residual is orthogonal to the reconstructed part (about the mean), and the
